@@ -107,11 +107,10 @@ structure M (s : App) (c : CSet) : Prop where
   occ1 : ∀ v ∈ s.vals, v.op ∉ s.updated → occ v.op s.index = 1
   occ2 : ∀ v ∈ s.vals, v.op ∈ s.updated → occ v.op s.index = 2
   unbond : s.params.unbond > 0
-  infos : ∀ v ∈ s.vals, ∃ i, s.getInfo v.key = some i ∧ i.missed ≤ s.window - s.minSigned
+  infos : ∀ v ∈ s.vals, (s.getInfo v.key).isSome = true
   cons : ∀ v ∈ s.vals, s.valByKey v.key = some v
   updSorted : s.updated.Pairwise (· < ·)
   updCur : ∀ op ∈ s.updated, ∃ v, s.getVal op = some v ∧ (powerOf v.tokens, op) ∈ s.index
-  winOk : 0 ≤ s.window - s.minSigned
 
 theorem sorted_op_inj : ∀ (l : List Val), SortedOps l → ∀ x ∈ l, ∀ y ∈ l, x.op = y.op → x = y
   | [], _, x, hx, _, _, _ => by cases hx
@@ -389,86 +388,27 @@ theorem endBlock_G (s : App) (c : CSet) (m : M s c) (f : Fits s c) :
       simp only [lastPower, this, Option.getD_some] at hp2
       rw [← hp2]; unfold cur; omega)
     idxEx := m.idxEx, idxNodup := m.idxNodup, occ1 := m.occ1, occ2 := m.occ2, unbond := m.unbond
-    infos := m.infos, cons := m.cons, updSorted := m.updSorted, updCur := m.updCur, winOk := m.winOk
+    infos := m.infos, cons := m.cons, updSorted := m.updSorted, updCur := m.updCur
     allCur := hallCur
     totalOk := ⟨hT0, hT1⟩ }
 
-/-! ### x/slashing's BeginBlocker when every vote is present -/
+/-! ### x/slashing's BeginBlocker when it punishes nobody -/
 
-theorem handleSig_present (s : App) (key : Nat) (power : Int) (v : Val) (i : SignInfo)
-    (hv : s.valByKey key = some v) (hj : v.jailed = false) (hi : s.getInfo key = some i)
-    (hm : i.missed ≤ s.window - s.minSigned) :
-    ∃ I B i', s.handleSig key power false = .ok { s with infos := I, bitmap := B } ∧
-      alookup key I = some i' ∧ i'.missed ≤ s.window - s.minSigned ∧ ∀ k, k ≠ key → alookup k I = alookup k s.infos := by
-  unfold handleSig
-  rw [hv]
-  simp only [handleSigVal, hj, Bool.false_eq_true, ↓reduceIte, hi]
-  unfold handleSigInfo
-  simp only [Bool.and_false, Bool.false_eq_true, ↓reduceIte, Bool.not_false, Bool.and_true]
-  by_cases hp : s.bitGet key (i.idx % s.window).toNat = true
-  · simp only [hp, ↓reduceIte]
-    have hno : ¬ (decide ((s.bitSet key (i.idx % s.window).toNat false).height > i.start + (s.bitSet key (i.idx % s.window).toNat false).window) &&
-        decide (i.missed - 1 > (s.bitSet key (i.idx % s.window).toNat false).window - (s.bitSet key (i.idx % s.window).toNat false).minSigned)) = true := by
-      intro h
-      simp only [bitSet, Bool.and_eq_true] at h
-      have h2 := of_decide_eq_true h.2
-      omega
-    rw [if_neg hno]
-    refine ⟨ainsert key { i with idx := i.idx + 1, missed := i.missed - 1 } s.infos, (s.bitSet key (i.idx % s.window).toNat false).bitmap,
-      { i with idx := i.idx + 1, missed := i.missed - 1 }, ?_, ?_, ?_, ?_⟩
-    · simp only [setInfo, bitSet]
-    · simp [alookup_ainsert_self]
-    · simp only; omega
-    · intro k hk; simp [alookup_ainsert_ne _ _ _ _ hk]
-  · simp only [hp, Bool.false_eq_true, ↓reduceIte]
-    have hno : ¬ (decide (s.height > i.start + s.window) && decide (i.missed > s.window - s.minSigned)) = true := by
-      intro h
-      simp only [Bool.and_eq_true, decide_eq_true_eq] at h
-      omega
-    rw [if_neg hno]
-    refine ⟨ainsert key { i with idx := i.idx + 1 } s.infos, s.bitmap, { i with idx := i.idx + 1 }, ?_, ?_, ?_, ?_⟩
-    · simp only [setInfo]
-    · simp [alookup_ainsert_self]
-    · exact hm
-    · intro k hk; simp [alookup_ainsert_ne _ _ _ _ hk]
-
-/-- every vote is present and comes from a known validator -/
-def VotesOk (s : App) (votes : List Vote) : Prop :=
-  ∀ vt ∈ votes, vt.absent = false ∧ ∃ v ∈ s.vals, v.key = vt.key
-
-theorem slashingBegin_present (s0 : App) (c : CSet) (m0 : M s0 c) : ∀ (votes : List Vote) (I : List (Nat × SignInfo)) (B : List (Nat × List Nat)),
-    VotesOk s0 votes →
-    (∀ v ∈ s0.vals, ∃ i, alookup v.key I = some i ∧ i.missed ≤ s0.window - s0.minSigned) →
-    ∃ I' B', slashingBegin votes { s0 with infos := I, bitmap := B } = .ok { s0 with infos := I', bitmap := B' } ∧
-      ∀ v ∈ s0.vals, ∃ i, alookup v.key I' = some i ∧ i.missed ≤ s0.window - s0.minSigned
-  | [], I, B, _, hI => ⟨I, B, rfl, hI⟩
-  | vt :: rest, I, B, hv, hI => by
-    obtain ⟨habs, v, hvm, hvk⟩ := hv vt (by simp)
-    obtain ⟨i, hi, him⟩ := hI v hvm
-    have hval : ({ s0 with infos := I, bitmap := B } : App).valByKey vt.key = some v := by
-      have := m0.cons v hvm
-      rw [← hvk]; exact this
-    obtain ⟨I1, B1, i1, h1, hi1, hm1, hoth⟩ := handleSig_present { s0 with infos := I, bitmap := B } vt.key vt.power v i hval
-      (m0.live v hvm).2.1 (by rw [← hvk]; exact hi) him
-    unfold slashingBegin
-    rw [habs, h1]
-    simp only
-    apply slashingBegin_present s0 c m0 rest I1 B1 (fun x hx => hv x (by simp [hx]))
-    intro w hw
-    by_cases hk : w.key = vt.key
-    · exact ⟨i1, by rw [hk]; exact hi1, hm1⟩
-    · obtain ⟨iw, hiw, hmw⟩ := hI w hw
-      exact ⟨iw, by rw [hoth w.key hk]; exact hiw, hmw⟩
+/-- x/slashing's BeginBlocker, run on the block's votes, changes nothing but signing infos and missed-block bitmaps (nobody
+    is slashed or jailed for downtime), and every validator still has a signing info.  `s0` is the state with the new
+    height and time. -/
+def VotesOk (s0 : App) (votes : List Vote) : Prop :=
+  ∃ I B, slashingBegin votes s0 = .ok { s0 with infos := I, bitmap := B } ∧ ∀ v ∈ s0.vals, (alookup v.key I).isSome = true
 
 /-- `M` does not look at the signing infos beyond the missed-block counters, nor at the bitmap, height or time -/
 theorem M_frame (s : App) (c : CSet) (m : M s c) (I : List (Nat × SignInfo)) (B : List (Nat × List Nat)) (h t : Int)
-    (hI : ∀ v ∈ s.vals, ∃ i, alookup v.key I = some i ∧ i.missed ≤ s.window - s.minSigned) :
+    (hI : ∀ v ∈ s.vals, (alookup v.key I).isSome = true) :
     M { s with infos := I, bitmap := B, height := h, time := t } c :=
   { sorted := m.sorted, keys := m.keys, live := m.live, nonempty := m.nonempty, ubq := m.ubq, pend := ⟨m.pend.ops, m.pend.keys, m.pend.fresh⟩
     last := m.last, lastOnly := m.lastOnly, lastSorted := m.lastSorted, cometCur := m.cometCur
     cometKnown := m.cometKnown, cSorted := m.cSorted, cNonneg := m.cNonneg, idxEx := m.idxEx, idxNodup := m.idxNodup
     occ1 := m.occ1, occ2 := m.occ2, unbond := m.unbond, infos := hI, cons := m.cons
-    updSorted := m.updSorted, updCur := m.updCur, winOk := m.winOk }
+    updSorted := m.updSorted, updCur := m.updCur }
 
 /-! ### PoA's BeginBlocker: the entries written by last block's SetPowers are pruned -/
 
@@ -574,7 +514,7 @@ theorem poaBegin_G (lf : LimitFacts) (s : App) (c : CSet) (g : G s c) :
       idxEx := (fun e he => m.idxEx e (h3 e he)), idxNodup := h2
       occ1 := (fun v hv _ => hocc v hv), occ2 := (fun v _ hu => by cases hu)
       unbond := m.unbond, infos := m.infos, cons := m.cons
-      updSorted := List.Pairwise.nil, updCur := (fun op hop => by cases hop), winOk := m.winOk
+      updSorted := List.Pairwise.nil, updCur := (fun op hop => by cases hop)
       allCur := g.allCur, totalOk := g.totalOk }
   have hprune : pruneUpdated s.updated s = .ok { s with index := idx' } := h1
   unfold poaBegin
@@ -920,7 +860,6 @@ theorem M_setPower_existing (s s' : App) (c : CSet) (op p : Nat) (u : Bool) (m :
       intro x hx
       rw [hvals] at hx
       have hgi : ∀ k, s'.getInfo k = s.getInfo k := fun k => by simp [getInfo, hinfosE]
-      rw [hwinE.1, hwinE.2]
       rcases hmemNew x hx with e | ⟨o, _⟩
       · rw [e, hgi]; exact m.infos v hvm
       · rw [hgi]; exact m.infos x o)
@@ -965,8 +904,7 @@ theorem M_setPower_existing (s s' : App) (c : CSet) (op p : Nat) (u : Bool) (m :
       · have hne2 : o ≠ op := by intro e2; subst e2; exact hd3 e
         obtain ⟨x, hx, hxm⟩ := m.updCur o e
         refine ⟨x, by rw [hget, hgne o hne2]; exact hx, ?_⟩
-        rw [hindex, mem_idxInsert _ _ _ hd1]; exact Or.inr hxm)
-    winOk := (by rw [hwinE.1, hwinE.2]; exact m.winOk) }
+        rw [hindex, mem_idxInsert _ _ _ hd1]; exact Or.inr hxm) }
 
 /-! ### admission of a pending applicant by SetPower -/
 
@@ -1234,11 +1172,9 @@ theorem M_setPower_admit (s s' : App) (c : CSet) (op P : Nat) (u : Bool) (m : M 
     infos := (by
       intro x hx
       rw [hvals] at hx
-      rw [hwinE.1, hwinE.2]
       simp only [getInfo, hinfosE]
       rcases hmemNew x hx with e | ⟨o, _⟩
-      · rw [e, hwkey]
-        exact ⟨_, alookup_ainsert_self _ _ _, m.winOk⟩
+      · rw [e, hwkey, alookup_ainsert_self]; rfl
       · rw [alookup_ainsert_ne _ _ _ _ (fr2 x o)]
         exact m.infos x o)
     cons := (by
@@ -1276,8 +1212,7 @@ theorem M_setPower_admit (s s' : App) (c : CSet) (op P : Nat) (u : Bool) (m : M 
           intro e2
           rw [e2, ← hpop, fr1] at hx; cases hx
         refine ⟨x, by rw [hget, hgne o hne2]; exact hx, ?_⟩
-        rw [hindex, mem_idxInsert _ _ _ h1, mem_idxInsert _ _ _ h0]; exact Or.inr (Or.inr hxm))
-    winOk := (by rw [hwinE.1, hwinE.2]; exact m.winOk) }
+        rw [hindex, mem_idxInsert _ _ _ h1, mem_idxInsert _ _ _ h0]; exact Or.inr (Or.inr hxm)) }
 
 /-- **SetPower preserves `M`**: on an existing validator when it fires neither D3 nor D1; on a pending applicant always -/
 theorem M_setPower (s s' : App) (c : CSet) (op p : Nat) (u : Bool) (m : M s c)
@@ -1318,7 +1253,7 @@ theorem M_pending (s s' : App) (c : CSet) (m : M s c) (P : List Pending) (B S : 
     last := m.last, lastOnly := m.lastOnly, lastSorted := m.lastSorted, cometCur := m.cometCur
     cometKnown := m.cometKnown, cSorted := m.cSorted, cNonneg := m.cNonneg, idxEx := m.idxEx, idxNodup := m.idxNodup
     occ1 := m.occ1, occ2 := m.occ2, unbond := m.unbond, infos := m.infos, cons := m.cons
-    updSorted := m.updSorted, updCur := m.updCur, winOk := m.winOk }
+    updSorted := m.updSorted, updCur := m.updCur }
 
 /-- **a successful CreateValidator preserves `M`**: the application joins the pending list; its operator and key are
     new (the handler checked the validators and the pending list) -/
@@ -1467,7 +1402,7 @@ theorem runTxs_M (c : CSet) : ∀ (txs : List Tx) (s : App) (incs : List (Signer
 
 /-- `G` does not look at the signing infos beyond the missed-block counters, nor at the bitmap, height or time -/
 theorem G_frame (s : App) (c : CSet) (g : G s c) (I : List (Nat × SignInfo)) (B : List (Nat × List Nat)) (h t : Int)
-    (hI : ∀ v ∈ s.vals, ∃ i, alookup v.key I = some i ∧ i.missed ≤ s.window - s.minSigned) :
+    (hI : ∀ v ∈ s.vals, (alookup v.key I).isSome = true) :
     G { s with infos := I, bitmap := B, height := h, time := t } c :=
   { toM := M_frame s c g.toM I B h t hI, allCur := g.allCur, totalOk := g.totalOk }
 
@@ -1488,7 +1423,7 @@ theorem beforeEnd_eq (env : Env) (s : App) (b : Block) :
 /-- a block of a power-adjustment history: every validator votes, no evidence, quiet transactions, and at the
     EndBlocker the index fits under `MaxValidators` (no D7) and the powers stay within CometBFT's maximum -/
 structure QuietBlock (s : App) (c : CSet) (b : Block) : Prop where
-  votes : VotesOk s b.votes
+  votes : VotesOk { s with height := s.height + 1, time := s.time + b.dt } b.votes
   noEvid : b.evid = []
   txs : ∀ s2, beginState genEnv s b = .ok s2 → QuietTxs b.txs s2 []
   fits : ∀ s2, beginState genEnv s b = .ok s2 → Fits (runTxs genEnv b.txs s2 [] []).2 c
@@ -1497,10 +1432,7 @@ structure QuietBlock (s : App) (c : CSet) (b : Block) : Prop where
 theorem block_G (s : App) (c : CSet) (b : Block) (g : G s c) (q : QuietBlock s c b) :
     ∃ o s' c', block genEnv s b = .ok (o, s') ∧ Comet.applyChangeSet c o.updates = .ok c' ∧ Agree c' s' ∧ G s' c' := by
   -- BeginBlockers
-  have g0 : G { s with infos := s.infos, bitmap := s.bitmap, height := s.height + 1, time := s.time + b.dt } c :=
-    G_frame s c g s.infos s.bitmap (s.height + 1) (s.time + b.dt) g.infos
-  obtain ⟨I', B', hsl, hI'⟩ := slashingBegin_present { s with height := s.height + 1, time := s.time + b.dt } c g0.toM b.votes s.infos s.bitmap
-    q.votes g.infos
+  obtain ⟨I', B', hsl, hI'⟩ := q.votes
   have g1 : G { s with infos := I', bitmap := B', height := s.height + 1, time := s.time + b.dt } c :=
     G_frame s c g I' B' (s.height + 1) (s.time + b.dt) hI'
   obtain ⟨s2, hpb, g2, hupd, _, _, _⟩ := poaBegin_G genEnv.lim _ c g1
@@ -1797,12 +1729,10 @@ theorem genesis_G (g : Genesis) (hw : g.wf = true) :
       infos := (by
         intro v hv
         obtain ⟨x, hx, e⟩ := hmemRec v hv
-        obtain ⟨i, hi, hm⟩ := inv2.infos x hx
-        refine ⟨i, by rw [e]; exact hi, ?_⟩
-        show i.missed ≤ (genesisState g).window - (genesisState g).minSigned
-        rw [hm, inv2.win.1, inv2.win.2]
-        have := hwf.1.1.1.1.1.1.2
-        omega)
+        obtain ⟨i, hi, _⟩ := inv2.infos x hx
+        show ((genesisState g).getInfo v.key).isSome = true
+        rw [e]; show ((genesisState g).getInfo x.key).isSome = true
+        rw [hi]; rfl)
       cons := (by
         intro v hv
         obtain ⟨x, hx, e⟩ := hmemRec v hv
@@ -1813,11 +1743,6 @@ theorem genesis_G (g : Genesis) (hw : g.wf = true) :
         rw [hgetE, e]; exact inv.recs x hx)
       updSorted := (by show (genesisState g).updated.Pairwise (· < ·); rw [inv2.updated]; exact List.Pairwise.nil)
       updCur := (by intro op hop; have : op ∈ (genesisState g).updated := hop; rw [inv2.updated] at this; cases this)
-      winOk := (by
-        show 0 ≤ (genesisState g).window - (genesisState g).minSigned
-        rw [inv2.win.1, inv2.win.2]
-        have := hwf.1.1.1.1.1.1.2
-        omega)
       allCur := hallCur
       totalOk := ⟨hT0, hT1⟩ }
 
@@ -1880,11 +1805,14 @@ theorem quietBlock_of_B (s : App) (c : CSet) (b : Block) (h : quietBlockB s c b 
   simp only [Bool.and_eq_true] at h
   obtain ⟨⟨hv, he⟩, hm⟩ := h
   refine ⟨?_, by simpa using he, ?_, ?_⟩
-  · intro vt hvt
-    have := List.all_eq_true.mp hv vt hvt
-    simp only [Bool.and_eq_true, Bool.not_eq_true'] at this
-    obtain ⟨v, hvm, hk⟩ := List.any_eq_true.mp this.2
-    exact ⟨this.1, v, hvm, by simpa using hk⟩
+  · cases hsl : slashingBegin b.votes { s with height := s.height + 1, time := s.time + b.dt } with
+    | error e => rw [hsl] at hv; cases hv
+    | ok s1 =>
+      rw [hsl] at hv
+      simp only [Bool.and_eq_true, decide_eq_true_eq] at hv
+      refine ⟨s1.infos, s1.bitmap, ?_, ?_⟩
+      · rw [hsl]; exact congrArg Except.ok hv.1
+      · intro v hvm; exact List.all_eq_true.mp hv.2 v hvm
   · intro s2 hs2
     rw [hs2] at hm
     simp only [Bool.and_eq_true] at hm
